@@ -191,7 +191,7 @@ def check(tier):
     # ---- (b) safety search over the whole parser + renderer
     n = (6000 if tier == "quick" else 150000) * boost
     cases, dist = gen_fuzz(rng, n)
-    bt = boundary_templates(rng)
+    bt = tparse.boundary_texts()      # c01.boundary_templates plus the narrow-field shapes of the parser
     # deep nestings iterate the root at every level: a one-member root keeps the work linear
     bcases = [(rng.choice([0, 1, 2, 3]), t, ({"a": "x"} if t.count("<loop") > 50 else {"a": "x", "v": 1, "list": [1, [2], 3], "obj": {"k": 1, "k2": "z"}, "items": [{"name": "n", "g": "p"}, {"g": "q", "name": "m"}], "item": [4, 5],
                                                                                                       "rmin": -9223372036854775808.0, "rmax": 9223372036854775808.0, "m1": -1, "mz": -0.0})) for t in bt]
